@@ -136,10 +136,12 @@ theorem ackBlock_rtx (s : Tcb) (seg : Hdr) : ∃ s' r, ackBlock s seg = .ok (s',
         intro s1 r1 hs1
         dsimp only
         split <;> split <;> exact ⟨_, _, rfl, hs1.trans (rtxLe_of_eq rfl)⟩
-    · dsimp only
-      split <;> exact ⟨_, _, rfl, rtxLe_of_eq rfl⟩
-    · simp only [enqueueThen_eq]
-      exact ⟨_, _, rfl, (rtxLe_enqueueBuilt _ _).trans (rtxLe_of_eq rfl)⟩
+    · refine afterAck_rtx _ seg _ (fun x => ∃ s' r, x = .ok (s', r) ∧ RtxLe s s') ?_
+      intro s1 r1 hs1
+      split
+      · exact ⟨_, _, rfl, hs1⟩
+      · split <;> exact ⟨_, _, rfl, hs1⟩
+    · exact ⟨_, _, rfl, RtxLe.refl _⟩
 
 theorem synBlock_rtx (s : Tcb) (seg : Hdr) : ∃ s' r, synBlock s seg = .ok (s', r) ∧ RtxLe s s' := by
   unfold synBlock
@@ -312,6 +314,15 @@ theorem segmentize_rtx (maxSeg : Nat) (hm : maxSeg ≤ MAX_SEGMENT_TEXT) (fuel :
           simp only [Transmit.new, List.length_take]
           omega
 
+theorem queueFin_rtx (s s' : Tcb) (e : s.queueFin = .ok s') : RtxLe s s' := by
+  unfold queueFin at e
+  split at e
+  · rw [enqueue_eq] at e
+    dsimp only at e
+    cases e
+    exact (rtxLe_enqueueBuilt _ _).trans (rtxLe_of_eq rfl)
+  · cases e; exact RtxLe.refl _
+
 /-- `segments()`: the queue stays bounded and every emitted segment fits an IPv4 datagram -/
 theorem segments_rtx (s : Tcb) (hb : RtxBound s) (s' : Tcb) (out : List Segment)
     (e : s.segments = .ok (s', out)) :
@@ -333,7 +344,17 @@ theorem segments_rtx (s : Tcb) (hb : RtxBound s) (s' : Tcb) (out : List Segment)
            · simp at h1
            · exact segmentize_rtx _ (by unfold MAX_SEGMENT_TEXT; dsimp only; omega) _ _ _ _ h1)
         | (cases h1; exact RtxLe.refl _)
-    have b1 : RtxBound s1 := hb.step p1
+    cases h2 : finIfPending s.finPending s1 with
+    | error err => rw [h2] at e; simp at e
+    | ok s2 =>
+    rw [h2] at e
+    dsimp only at e
+    have p2 : RtxLe s1 s2 := by
+      unfold finIfPending at h2
+      split at h2
+      · exact queueFin_rtx _ _ h2
+      · cases h2; exact RtxLe.refl _
+    have b1 : RtxBound s2 := (hb.step p1).step p2
     simp only [Except.ok.injEq, Prod.mk.injEq] at e
     obtain ⟨hs', hout⟩ := e
     constructor
@@ -381,10 +402,12 @@ theorem close_rtx (s : Tcb) (s' : Tcb) (r : CloseResult) (e : s.close = .ok (s',
   split at e
   all_goals first
     | (cases e; exact RtxLe.refl _)
-    | (rw [enqueue_eq] at e
-       dsimp only at e
-       cases e
-       exact (rtxLe_enqueueBuilt _ _).trans (rtxLe_of_eq rfl))
+    | (split at e
+       · simp at e
+       · rename_i t h1
+         cases e
+         have h2 := queueFin_rtx _ _ h1
+         exact RtxLe.trans (rtxLe_of_eq rfl) h2)
 
 theorem abort_rtx (s : Tcb) (s' : Tcb) (e : s.abort = .ok s') : RtxLe s s' := by
   unfold abort at e
